@@ -39,6 +39,15 @@ func (c *RunCfg) solverCfg(sub string) *SolverCfg {
 	return &SolverCfg{OutDir: dir, TimeoutS: t, Parallel: runtime.NumCPU(), CrossCheck: c.Tier == "thorough"}
 }
 
+// baselinePath: VERIF_BASELINE redirects the baseline file (development only: trying an engine change without
+// disturbing checks that are running against the committed baseline)
+func baselinePath(verifDir string) string {
+	if p := os.Getenv("VERIF_BASELINE"); p != "" {
+		return p
+	}
+	return filepath.Join(verifDir, "baseline_obligations.json")
+}
+
 func loadOrDie(cfg *RunCfg) *Program {
 	if BaselineLocals == nil {
 		verifDir := cfg.VerifDir
@@ -46,7 +55,7 @@ func loadOrDie(cfg *RunCfg) *Program {
 			verifDir = "/verif"
 		}
 		var b Baseline
-		if readJSON(filepath.Join(verifDir, "baseline_obligations.json"), &b) {
+		if readJSON(baselinePath(verifDir), &b) {
 			BaselineLocals = b.ContractLocals
 		}
 	}
@@ -283,7 +292,7 @@ func runAll(cfg *RunCfg, writeBaseline bool) int {
 			dir = "/verif"
 		}
 		data, _ := json.MarshalIndent(map[string]interface{}{"properties": base, "contract_locals": prog.contractLocals()}, "", " ")
-		os.WriteFile(filepath.Join(dir, "baseline_obligations.json"), data, 0o644)
+		os.WriteFile(baselinePath(dir), data, 0o644)
 		fmt.Println("baseline written")
 	}
 	return worst
@@ -528,7 +537,7 @@ func checkProperty(cfg *RunCfg, prog *Program, id string, start time.Time) (int,
 	var known KnownFindings
 	readJSON(filepath.Join(verifDir, "known_findings.json"), &known)
 	var base Baseline
-	haveBase := readJSON(filepath.Join(verifDir, "baseline_obligations.json"), &base)
+	haveBase := readJSON(baselinePath(verifDir), &base)
 
 	var reports []obReport
 	nObl, nDis, nCover, nCoverOK := 0, 0, 0, 0
